@@ -793,7 +793,7 @@ struct Tally {
 fn run_text(w: &Watch, key: crash::Key, dir: &Path, src: &str, tally: &mut Tally, out: &mut Vec<Finding>) {
     let path = dir.join("main.gom");
     let _ = std::fs::write(&path, src);
-    let mut push_panic = |entry: &str, p: crash::PanicInfo, out: &mut Vec<Finding>| {
+    let push_panic = |entry: &str, p: crash::PanicInfo, out: &mut Vec<Finding>| {
         out.push(Finding { kind: "panic", entry: entry.to_string(), site: crash::site_of(&p), msg: format!("{} [{}:{}]", p.msg, crash::short_file(&p.file), p.line) });
     };
     // parse
@@ -1075,7 +1075,7 @@ fn child(args: &util::Args, stream: &str, from: usize, to: usize, outfile: &Path
     let out = Arc::new(Mutex::new(std::fs::OpenOptions::new().create(true).append(true).open(outfile).expect("open child out")));
     let out2 = out.clone();
     // deep nesting is allowed to be slow (polynomial), not to hang: the nest stream gets a longer limit
-    let limit = Duration::from_secs(if stream == "nest" { 40 } else if thorough { 10 } else { 5 });
+    let limit = Duration::from_secs(if stream == "nest" { 90 } else if thorough { 10 } else { 5 });
     let watch = Watch::start_mode(
         1,
         limit,
@@ -1160,7 +1160,10 @@ fn run_chunk(exe: &Path, args: &util::Args, stream: &str, from: usize, to: usize
     let corpus = corpus_sources();
     let mut restarts = 0;
     while start < to {
-        let status = std::process::Command::new(exe)
+        // address-space limit: a loop that allocates for ever aborts quickly instead of waiting for the OOM killer
+        let status = std::process::Command::new("sh")
+            .args(["-c", "ulimit -v 6000000 2>/dev/null; exec \"$0\" \"$@\""])
+            .arg(exe)
             .args(["c04", "--seed", &args.seed.to_string(), "--tier", &args.tier, "--out"])
             .arg(outdir)
             .args(["--child", stream, &start.to_string(), &to.to_string()])
@@ -1209,8 +1212,10 @@ fn run_chunk(exe: &Path, args: &util::Args, stream: &str, from: usize, to: usize
         ));
         start = culprit + 1;
         restarts += 1;
-        if restarts > 200 {
-            lines.lock().unwrap().push(format!("X\t{}\ttoo many restarts, chunk abandoned at {}", stream, start));
+        // a defect that hangs or kills every other case would cost (limit × cases): after a few dead
+        // children the chunk has shown what there is to see (each of them is recorded above)
+        if restarts >= 6 && start < to {
+            lines.lock().unwrap().push(format!("A\t{}\t{}\t{}\tchunk abandoned after {} dead children", stream, start, to, restarts));
             break;
         }
     }
